@@ -22,8 +22,9 @@ def register(prop, TB_COMMON):
 
 
 def stack_probe(cfg, tier, seed, workdir, env):
-    """C16, stack clause, impl only: documents WITHOUT bracket nesting whose call depth grows with a chain of `-`
-    signs (`IntConstant::parse` recurses once per sign).  Run in a process of its own; a death is an oracle failure."""
+    """C16, stack clause, impl only — regression test of finding DI2 (fixed by 4f1981f): documents WITHOUT bracket
+    nesting that carry a chain of 40 000 (thorough: 100 000) `-` signs; `IntConstant::parse` used to recurse once per sign
+    and exhaust a 2 MiB stack.  Run in a process of its own; a death is an oracle failure (a violation again)."""
     import os, subprocess
     verif = os.path.dirname(os.path.dirname(os.path.abspath(__file__)))
     rt = os.path.join(verif, "target", "cargo", "debug", "rt")
@@ -36,19 +37,4 @@ def stack_probe(cfg, tier, seed, workdir, env):
         if p.returncode != 0:
             fails.append(("C16-stack", q, "C16,PANIC", "process died (rc=%d): stack exhausted on a 2 MiB thread by a chain of '-' signs, bracket nesting 0" % p.returncode, ans))
     extra = {"stack_probe": {"requests": len(reqs), "deaths": len(fails)}}
-    if tier == "thorough":
-        # smallest chain length that kills a 2 MiB thread (bisection, impl only)
-        def dies(n):
-            doc = "const i64 c = " + "-" * n + "7"
-            p = subprocess.run([rt, "exec"], input="idl-parse file " + doc.encode().hex() + "\n", stdout=subprocess.PIPE, stderr=subprocess.DEVNULL, text=True, env=env)
-            return p.returncode != 0
-        lo, hi = 1000, 100000
-        if dies(hi) and not dies(lo):
-            while hi - lo > 250:
-                mid = (lo + hi) // 2
-                if dies(mid):
-                    hi = mid
-                else:
-                    lo = mid
-            extra["stack_probe"]["minus_chain_threshold_2MiB"] = [lo, hi]
     return dict(evaluations=len(reqs), distinct=reqs, samples=samples, oracle_fails=fails, extra=extra)
